@@ -116,10 +116,61 @@ func genWrap(g *vh.Gen) {
 	}
 }
 
+// genReopen: the FILE store re-opened on the same path with another cap (operation o<cap>: a restart
+// with a changed INBUCKET_STORAGE_MAILBOXMSGCAP): n -> smaller n, 0 -> n, n -> 0 -> n. After the re-open
+// a mailbox may hold more than the cap until its next delivery, which must leave exactly the newest cap
+// (two or more evictions at once), the new id retrievable.
+func genReopen(g *vh.Gen) {
+	for i := 0; i < g.N(40, 1500); i++ {
+		var caps []int
+		switch g.Intn(3) {
+		case 0:
+			big := 4 + g.Intn(4)
+			caps = []int{big, 1 + g.Intn(big-2)}
+		case 1:
+			caps = []int{0, 1 + g.Intn(4)}
+		default:
+			n := 2 + g.Intn(4)
+			caps = []int{n, 0, 1 + g.Intn(n)}
+		}
+		names := []string{"reopen-a", "reopen-b"}
+		date := 1600003000
+		var ops []string
+		add := func(mb int) {
+			date += 5
+			ops = append(ops, "a"+vh.I(mb)+":"+vh.I(date)+":"+vh.I(150+50*g.Intn(5)))
+		}
+		look := func() { ops = append(ops, "l0", "l1", "g0:l") }
+		for si, c := range caps {
+			if si > 0 {
+				ops = append(ops, "o"+vh.I(c))
+				look() // more than the cap may still be there
+			}
+			n := 3 + g.Intn(5)
+			if c == 0 {
+				n = 5 + g.Intn(4) // run without a cap: fill well beyond the next cap
+			}
+			for k := 0; k < n; k++ {
+				add(g.Intn(2))
+				if g.Chance(0.4) {
+					look()
+				}
+				if g.Chance(0.1) {
+					ops = append(ops, "r0:k"+vh.I(g.Intn(6)))
+				}
+			}
+			look()
+		}
+		ops = append(ops, "v")
+		sd.EmitHistory(g, []string{"file"}, "direct", caps[0], 0, names, joinOps(ops))
+	}
+}
+
 func genAll(g *vh.Gen) {
 	gen(g)
 	genBoth(g)
 	genWrap(g)
+	genReopen(g)
 }
 
 func main() { vh.Main(genAll, sd.Exec) }
